@@ -1,2 +1,252 @@
 //! Read-only probe (child module of `ntp-proto/src/nts/mod.rs`), compiled only under
-//! `--cfg pendulum_project_ntpd_rs_verif`. Owned by the world that needs it; must never mutate state.
+//! `--cfg pendulum_project_ntpd_rs_verif`. Owned by world w3; must never mutate state.
+//!
+//! Being a child of `crate::nts` it can name the private message types
+//! (`messages::{Request, KeyExchangeResponse, ..}`, `record::NtsRecord`, `NextProtocol`,
+//! `AlgorithmDescription`). It implements the API of `crate::verif::nts::Nts`: lossless
+//! conversions between the real types and the plain-data mirrors, and thin async
+//! wrappers that call the REAL parsers / serialisers on any AsyncRead / AsyncWrite.
+
+use std::borrow::Cow;
+
+use tokio::io::{AsyncRead, AsyncWrite};
+
+use super::messages::{ErrorResponse, KeyExchangeResponse, NoOverlapResponse, Request, SupportsResponse};
+use super::record::NtsRecord;
+use super::{AeadAlgorithm, AlgorithmDescription, ErrorCode, KeyExchangeClient, KeyExchangeServer, NextProtocol, NtsError, WarningCode};
+use crate::verif::nts::{cipher_from_bytes, Nts, Rec, Req, Resp};
+
+fn protos(v: &[u16]) -> Cow<'static, [NextProtocol]> {
+    Cow::Owned(v.iter().map(|p| NextProtocol::from(*p)).collect())
+}
+
+fn algs(v: &[u16]) -> Cow<'static, [AeadAlgorithm]> {
+    Cow::Owned(v.iter().map(|p| AeadAlgorithm::from(*p)).collect())
+}
+
+fn descs(v: &[(u16, u16)]) -> Cow<'static, [AlgorithmDescription]> {
+    Cow::Owned(
+        v.iter()
+            .map(|(id, keysize)| AlgorithmDescription {
+                id: AeadAlgorithm::from(*id),
+                keysize: *keysize,
+            })
+            .collect(),
+    )
+}
+
+fn rec_to_real(r: &Rec) -> NtsRecord<'static> {
+    match r {
+        Rec::EndOfMessage => NtsRecord::EndOfMessage,
+        Rec::NextProtocol(v) => NtsRecord::NextProtocol { protocol_ids: protos(v) },
+        Rec::Error(c) => NtsRecord::Error { errorcode: ErrorCode::from(*c) },
+        Rec::Warning(c) => NtsRecord::Warning { warningcode: WarningCode::from(*c) },
+        Rec::AeadAlgorithm(v) => NtsRecord::AeadAlgorithm { algorithm_ids: algs(v) },
+        Rec::NewCookie(d) => NtsRecord::NewCookie { cookie_data: Cow::Owned(d.clone()) },
+        Rec::Server(s) => NtsRecord::Server { name: Cow::Owned(s.clone()) },
+        Rec::Port(p) => NtsRecord::Port { port: *p },
+        Rec::Unknown { record_type, critical, data } => NtsRecord::Unknown {
+            record_type: *record_type,
+            critical: *critical,
+            data: Cow::Owned(data.clone()),
+        },
+        Rec::KeepAlive => NtsRecord::KeepAlive,
+        Rec::SupportedNextProtocolList(v) => NtsRecord::SupportedNextProtocolList { supported_protocols: protos(v) },
+        Rec::SupportedAlgorithmList(v) => NtsRecord::SupportedAlgorithmList { supported_algorithms: descs(v) },
+        Rec::FixedKeyRequest { c2s, s2c } => NtsRecord::FixedKeyRequest {
+            c2s: Cow::Owned(c2s.clone()),
+            s2c: Cow::Owned(s2c.clone()),
+        },
+        Rec::NtpServerDeny(s) => NtsRecord::NtpServerDeny { denied: Cow::Owned(s.clone()) },
+        Rec::Authentication(s) => NtsRecord::Authentication { key: Cow::Owned(s.clone()) },
+    }
+}
+
+fn rec_from_real(r: &NtsRecord<'_>) -> Rec {
+    match r {
+        NtsRecord::EndOfMessage => Rec::EndOfMessage,
+        NtsRecord::NextProtocol { protocol_ids } => Rec::NextProtocol(protocol_ids.iter().map(|p| u16::from(*p)).collect()),
+        NtsRecord::Error { errorcode } => Rec::Error(u16::from(*errorcode)),
+        NtsRecord::Warning { warningcode } => Rec::Warning(u16::from(*warningcode)),
+        NtsRecord::AeadAlgorithm { algorithm_ids } => Rec::AeadAlgorithm(algorithm_ids.iter().map(|p| u16::from(*p)).collect()),
+        NtsRecord::NewCookie { cookie_data } => Rec::NewCookie(cookie_data.to_vec()),
+        NtsRecord::Server { name } => Rec::Server(name.to_string()),
+        NtsRecord::Port { port } => Rec::Port(*port),
+        NtsRecord::Unknown { record_type, critical, data } => Rec::Unknown {
+            record_type: *record_type,
+            critical: *critical,
+            data: data.to_vec(),
+        },
+        NtsRecord::KeepAlive => Rec::KeepAlive,
+        NtsRecord::SupportedNextProtocolList { supported_protocols } => {
+            Rec::SupportedNextProtocolList(supported_protocols.iter().map(|p| u16::from(*p)).collect())
+        }
+        NtsRecord::SupportedAlgorithmList { supported_algorithms } => {
+            Rec::SupportedAlgorithmList(supported_algorithms.iter().map(|d| (u16::from(d.id), d.keysize)).collect())
+        }
+        NtsRecord::FixedKeyRequest { c2s, s2c } => Rec::FixedKeyRequest {
+            c2s: c2s.to_vec(),
+            s2c: s2c.to_vec(),
+        },
+        NtsRecord::NtpServerDeny { denied } => Rec::NtpServerDeny(denied.to_string()),
+        NtsRecord::Authentication { key } => Rec::Authentication(key.to_string()),
+    }
+}
+
+fn req_from_real(r: &Request<'_>) -> Req {
+    match r {
+        Request::KeyExchange { algorithms, protocols, denied_servers } => Req::KeyExchange {
+            algorithms: algorithms.iter().map(|a| u16::from(*a)).collect(),
+            protocols: protocols.iter().map(|a| u16::from(*a)).collect(),
+            denied_servers: denied_servers.iter().map(|s| s.to_string()).collect(),
+        },
+        Request::FixedKey { authentication, c2s_key, s2c_key, algorithm, protocol, keep_alive } => Req::FixedKey {
+            authentication: authentication.to_string(),
+            c2s: c2s_key.key_bytes().to_vec(),
+            s2c: s2c_key.key_bytes().to_vec(),
+            algorithm: u16::from(*algorithm),
+            protocol: u16::from(*protocol),
+            keep_alive: *keep_alive,
+        },
+        Request::Support { authentication, wants_protocols, wants_algorithms, keep_alive } => Req::Support {
+            authentication: authentication.to_string(),
+            wants_protocols: *wants_protocols,
+            wants_algorithms: *wants_algorithms,
+            keep_alive: *keep_alive,
+        },
+    }
+}
+
+fn req_to_real(r: &Req) -> Option<Request<'static>> {
+    Some(match r {
+        Req::KeyExchange { algorithms, protocols, denied_servers } => Request::KeyExchange {
+            algorithms: algs(algorithms),
+            protocols: protos(protocols),
+            denied_servers: Cow::Owned(denied_servers.iter().map(|s| Cow::Owned(s.clone())).collect()),
+        },
+        Req::FixedKey { authentication, c2s, s2c, algorithm, protocol, keep_alive } => Request::FixedKey {
+            authentication: Cow::Owned(authentication.clone()),
+            c2s_key: cipher_from_bytes(*algorithm, c2s)?,
+            s2c_key: cipher_from_bytes(*algorithm, s2c)?,
+            algorithm: AeadAlgorithm::from(*algorithm),
+            protocol: NextProtocol::from(*protocol),
+            keep_alive: *keep_alive,
+        },
+        Req::Support { authentication, wants_protocols, wants_algorithms, keep_alive } => Request::Support {
+            authentication: Cow::Owned(authentication.clone()),
+            wants_protocols: *wants_protocols,
+            wants_algorithms: *wants_algorithms,
+            keep_alive: *keep_alive,
+        },
+    })
+}
+
+fn resp_from_real(r: &KeyExchangeResponse<'_>) -> Resp {
+    Resp {
+        protocol: u16::from(r.protocol),
+        algorithm: u16::from(r.algorithm),
+        cookies: r.cookies.iter().map(|c| c.to_vec()).collect(),
+        server: r.server.as_ref().map(|s| s.to_string()),
+        port: r.port,
+        keep_alive: r.keep_alive,
+    }
+}
+
+fn resp_to_real(r: &Resp) -> KeyExchangeResponse<'static> {
+    KeyExchangeResponse {
+        protocol: NextProtocol::from(r.protocol),
+        algorithm: AeadAlgorithm::from(r.algorithm),
+        cookies: Cow::Owned(r.cookies.iter().map(|c| Cow::Owned(c.clone())).collect()),
+        server: r.server.as_ref().map(|s| Cow::Owned(s.clone())),
+        port: r.port,
+        keep_alive: r.keep_alive,
+    }
+}
+
+fn not_convertible() -> std::io::Error {
+    std::io::Error::new(std::io::ErrorKind::InvalidInput, "verif: view not convertible to a real request")
+}
+
+impl Nts {
+    /// REAL `NtsRecord::parse`.
+    pub async fn parse_record(reader: impl AsyncRead + Unpin) -> Result<Rec, std::io::Error> {
+        NtsRecord::parse(reader).await.map(|r| rec_from_real(&r))
+    }
+
+    /// REAL `NtsRecord::serialize`.
+    pub async fn serialize_record(rec: &Rec, writer: impl AsyncWrite + Unpin) -> Result<(), std::io::Error> {
+        rec_to_real(rec).serialize(writer).await
+    }
+
+    /// REAL `Request::parse`.
+    pub async fn parse_request(reader: impl AsyncRead + Unpin) -> Result<Req, NtsError> {
+        Request::parse(reader).await.map(|r| req_from_real(&r))
+    }
+
+    /// REAL `Request::serialize`.
+    pub async fn serialize_request(req: &Req, writer: impl AsyncWrite + Unpin) -> Result<(), std::io::Error> {
+        match req_to_real(req) {
+            Some(r) => r.serialize(writer).await,
+            None => Err(not_convertible()),
+        }
+    }
+
+    /// REAL `KeyExchangeResponse::parse`.
+    pub async fn parse_response(reader: impl AsyncRead + Unpin) -> Result<Resp, NtsError> {
+        KeyExchangeResponse::parse(reader).await.map(|r| resp_from_real(&r))
+    }
+
+    /// REAL `KeyExchangeResponse::serialize`.
+    pub async fn serialize_response(resp: &Resp, writer: impl AsyncWrite + Unpin) -> Result<(), std::io::Error> {
+        resp_to_real(resp).serialize(writer).await
+    }
+
+    /// REAL `ErrorResponse::serialize`.
+    pub async fn serialize_error_response(code: u16, writer: impl AsyncWrite + Unpin) -> Result<(), std::io::Error> {
+        ErrorResponse { errorcode: ErrorCode::from(code) }.serialize(writer).await
+    }
+
+    /// REAL `NoOverlapResponse::serialize` (`None` = no overlapping protocol, `Some(p)` = no overlapping algorithm).
+    pub async fn serialize_no_overlap(protocol: Option<u16>, writer: impl AsyncWrite + Unpin) -> Result<(), std::io::Error> {
+        match protocol {
+            None => NoOverlapResponse::NoOverlappingProtocol.serialize(writer).await,
+            Some(p) => {
+                NoOverlapResponse::NoOverlappingAlgorithm { protocol: NextProtocol::from(p) }
+                    .serialize(writer)
+                    .await
+            }
+        }
+    }
+
+    /// REAL `SupportsResponse::serialize`.
+    pub async fn serialize_supports(
+        algorithms: Option<&[(u16, u16)]>,
+        protocols: Option<&[u16]>,
+        keep_alive: bool,
+        writer: impl AsyncWrite + Unpin,
+    ) -> Result<(), std::io::Error> {
+        SupportsResponse {
+            algorithms: algorithms.map(descs),
+            protocols: protocols.map(protos),
+            keep_alive,
+        }
+        .serialize(writer)
+        .await
+    }
+
+    /// What this client will offer (protocol ids, algorithm ids), in preference order. Read-only.
+    pub fn client_offer(client: &KeyExchangeClient) -> (Vec<u16>, Vec<u16>) {
+        (
+            client.protocols.iter().map(|p| u16::from(*p)).collect(),
+            client.algorithms.iter().map(|a| u16::from(*a)).collect(),
+        )
+    }
+
+    /// What this server is configured with (protocol ids, (algorithm id, keysize)). Read-only.
+    pub fn server_offer(server: &KeyExchangeServer) -> (Vec<u16>, Vec<(u16, u16)>) {
+        (
+            server.protocols.iter().map(|p| u16::from(*p)).collect(),
+            server.algorithms.iter().map(|d| (u16::from(d.id), d.keysize)).collect(),
+        )
+    }
+}
